@@ -140,3 +140,31 @@ Print Assumptions C06_no_mixture.
 Theorem C06order_model_ok : forall os ol, ok_C06order os ol (run_C06order os ol) = true.
 Proof. exact C06order_model_ok_lemma. Qed.
 Print Assumptions C06order_model_ok.
+
+(* the requested memory ordering through the crate's OWN AtomicInteger impls for the std atomics (suite C06ordstd): the
+   model of atomic_integer.rs hands the caller's ordering to the std method, std refuses an Acquire/AcqRel store and a
+   Release/AcqRel load; the checker demands of the real library that exactly those requests end in std's panic *)
+Theorem C06ordstd_model_ok : forall kind order, ok_C06ordstd kind order (run_C06ordstd kind order) = true.
+Proof. exact C06ordstd_model_ok_lemma. Qed.
+
+(* what the checker accepts: the operation panicked iff std refuses the REQUESTED ordering, and otherwise completed with the
+   right value - an implementation that turns a refused ordering into an accepted one, or the reverse, is rejected *)
+Theorem C06ordstd_checker_sharp : forall kind order st, kind <= 1 -> order <= 4 ->
+  ok_C06ordstd kind order st = true ->
+  (st = 2 <-> (kind = 0 /\ (order = 2 \/ order = 3)) \/ (kind = 1 /\ (order = 1 \/ order = 3))) /\ (st = 2 \/ st = 0).
+Proof. exact C06ordstd_checker_sharp_lemma. Qed.
+
+(* store buffering (suite C06sb): in every sequentially consistent schedule of  x := 1; r0 := y  ||  y := 1; r1 := x
+   (all 6 interleavings that keep each thread's program order) the outcome r0 = r1 = 0 does not occur; the suite fails
+   only when the real library, asked for SeqCst stores and loads, shows it *)
+Theorem C06_sb_forbidden_under_sc : forall l, In l sb_schedules -> sb_result l <> (0, 0).
+Proof. exact sb_forbidden_under_sc_lemma. Qed.
+
+Theorem C06_sb_schedules_complete : length sb_schedules = 6%nat /\
+  forall l, In l sb_schedules -> filter (fun e => match e with SbW0 | SbR0 => true | _ => false end) l = [SbW0; SbR0] /\
+                                 filter (fun e => match e with SbW1 | SbR1 => true | _ => false end) l = [SbW1; SbR1].
+Proof. exact sb_schedules_complete_lemma. Qed.
+Print Assumptions C06ordstd_model_ok.
+Print Assumptions C06ordstd_checker_sharp.
+Print Assumptions C06_sb_forbidden_under_sc.
+Print Assumptions C06_sb_schedules_complete.
